@@ -122,6 +122,13 @@ def owners(facts, fn, _seen=None):
     `fn` runs.  A function the rules know (or a closure, which belongs to its parent) is its own owner; a helper that was
     introduced later (symex.is_unknown_helper) runs on behalf of its callers, transitively.  A helper nobody calls has no
     owner: it cannot affect behaviour."""
+    if fn.kind == "Closure":
+        # a closure runs on behalf of the function it is written in
+        base_name = re.sub(r"(::\{closure#\d+\})+$", "", fn.name)
+        cand = [f_ for f_ in facts.fns.values() if f_.name == base_name and f_.kind != "Closure"]
+        if cand:
+            return owners(facts, cand[0], _seen)
+        return [(fn, None)]
     if not S.is_unknown_helper(fn):
         return [(fn, None)]
     _seen = _seen or set()
@@ -169,12 +176,19 @@ def field_writers(facts, adt_suffix, field):
         dw = facts.direct_writes(fn)
         for (adt, f), sites in dw.items():
             if f == field and (adt == adt_suffix or adt.endswith("::" + adt_suffix)):
-                if S.is_unknown_helper(fn):
+                # a closure writes on behalf of the function it is written in
+                base_name = re.sub(r"(::\{closure#\d+\})+$", "", fn.name)
+                base = fn
+                if base_name != fn.name:
+                    cand = [f_ for f_ in facts.fns.values() if f_.name == base_name]
+                    if cand:
+                        base = cand[0]
+                if S.is_unknown_helper(base):
                     # a helper the rules do not know by name: the write happens on behalf of its callers
-                    for o, b2 in owners(facts, fn):
+                    for o, b2 in owners(facts, base):
                         out.setdefault(o.name, []).extend([(b2, 0, "via " + M.short_name(fn.name))])
                 else:
-                    out.setdefault(fn.name, []).extend(sites)
+                    out.setdefault(base.name, []).extend(sites)
     return out
 
 
